@@ -273,14 +273,15 @@ ROUND12 = {
  "C09": "send contract of the core and the transports (from C17)",
  "C04": "re-arm stops the previous timer (from C10; found D18); REQ's ready list only permuted outside its transition table (element writes form an exchange)",
  "C05": "reply-size-conditions-exact: raw REP/RESPONDENT SendMsg queues or discards on no header/body condition other than len(Header) >= 4",
- "C16": "websocket single writer / single reader (frame I/O methods of *websocket.Conn are called by wsPipe.Send / Recv only, never from a handler)",
+ "C17": "recv-owns-memory also covers the returned Message (made by NewMessage in that call, never one kept in the connection)",
+ "C16": "core pipe.SendMsg/RecvMsg close the pipe on every transport error (guards of the close are the failed call only); websocket single writer / single reader (frame I/O methods of *websocket.Conn are called by wsPipe.Send / Recv only, never from a handler)",
  "C10": "rearm-stops-previous: every store of a new timer into a timer field is dominated by a Stop of that field (directly, under its nil test, through a helper or a method of the object), or is under a nil test, or runs only as that timer's callback (three frozen exceptions with reasons; found D18); E11 closer-leak (from C12; a resource stored in an object the function has just made is followed through that object); accept loops perform no handshake step (from C16)",
  "C11": "no wait under a lock (E4, from C12); one deadline per blocked call (from C18)",
  "C12": "E11: a resource stored into a fresh local object is owned by that object until the object is returned or published; E12a also covers close() of channel fields (closing a nil channel panics: the field is made at every creation of its struct — in the literal, or by a making method called before the object can escape — or made/tested on every path); E12 gains callee exit facts",
  "C14": "std-config-fields: net.Dialer / websocket.Dialer fields from a closed list (from C15)",
  "C15": "std-config-fields: stores into net.Dialer, net.ListenConfig, tls.Config, http.Server, gorilla Dialer/Upgrader fields are from a closed list",
  "C18": "queue room for re-sends under the lock (E10c, from C19); macat durations and the unset-deadline sentinel (from C20)",
- "C19": "fail-no-peers channel replaced where closed (from C18)",
+ "C19": "fail-no-peers channel replaced where closed (from C18); E13c waiters-reread: a wait loop woken through a wake-up channel takes every replaceable channel from its field inside the loop (or refreshes its loop-carried snapshot on every way round)",
  "C20": "a timeout field that starts at the negative 'not given' sentinel reaches SetOption only under a >= 0 test (every way into the call, through merges)",
 }
 for k, (t, x) in EXTRA.items():
